@@ -216,8 +216,7 @@ def judge(pid, seed, tier):
                                 add(nm + ".score_per_obs", [h, a, y, z], r, "pair outside the documented domain must raise ValueError")
                             continue
                         if r[0] != "val":
-                            if pid == "C04":
-                                add(nm + ".score_per_obs", [h, a, y, z], r, "in-domain pair must give a finite number")
+                            add(nm + ".score_per_obs", [h, a, y, z], r, "in-domain pair must give a finite number")
                             continue
                         if pid == "C04":
                             # tolerance relative to the natural magnitude max(|y|,|z|)^h of a degree-h homogeneous score
@@ -473,6 +472,49 @@ def judge(pid, seed, tier):
                 nm = "SquaredError.score_per_obs"
             if r[0] != "V":
                 add(nm, dict(y=ya, z=za), r, "observation and prediction vectors of different length must raise ValueError")
+    # ---- glue: mixed integer / float dtypes must give the values of the same numbers as float64
+    if pid in ("C04", "C05", "C08", "C14", "C15"):
+        combos = [(np.array([1.5, 2.25, 0.5, 3.75]), np.array([1, 2, 3, 2], dtype=np.int64)),          # float observations, integer predictions
+                  (np.array([1, 2, 2, 6], dtype=np.int64), np.array([2.75, 1.5, 2.5, 3.25], dtype=np.float32)),   # integer observations, float32 predictions
+                  (np.array([1, 2, 2, 6], dtype=np.int32), np.array([2.75, 1.5, 2.5, 3.25], dtype=np.float32)),
+                  (np.array([2, 2, 1, 3], dtype=np.int64), np.array([2, 1, 3, 3], dtype=np.int64))]           # all integers (ties included)
+        if pid == "C08":
+            fns = [(f"identification_function[{f}]", (lambda y, z, f=f: identification_function(y, z, functional=f, level=0.3))) for f in ("mean", "median", "expectile", "quantile")]
+        elif pid == "C15":
+            fns = [(f"ElementaryScore[{f}]", (lambda y, z, f=f: ElementaryScore(2, f, 0.3).score_per_obs(y, z))) for f in ("mean", "median", "quantile", "expectile")]
+        else:
+            fns = [("SquaredError", lambda y, z: SquaredError().score_per_obs(y, z)), ("PinballLoss(0.3)", lambda y, z: PinballLoss(0.3).score_per_obs(y, z)),
+                   ("PoissonDeviance", lambda y, z: PoissonDeviance().score_per_obs(y, z)), ("HES(2,0.2)", lambda y, z: HomogeneousExpectileScore(2, 0.2).score_per_obs(y, z))]
+        for nm, fn in fns:
+            for ya, za in combos:
+                tried += 1
+                want = np.asarray(fn(ya.astype(np.float64), za.astype(np.float64)), dtype=float)
+                got = real(lambda: 0.0)
+                try:
+                    gotv = np.asarray(fn(ya, za), dtype=float)
+                except Exception as e:  # noqa: BLE001
+                    add(nm, dict(y=ya.tolist(), y_dtype=str(ya.dtype), z=za.tolist(), z_dtype=str(za.dtype)), type(e).__name__, "mixed integer / float input is accepted like float64 input")
+                    continue
+                if not np.allclose(gotv, want, rtol=1e-6, atol=1e-9):
+                    add(nm, dict(y=ya.tolist(), y_dtype=str(ya.dtype), z=za.tolist(), z_dtype=str(za.dtype)), [gotv.tolist(), want.tolist()],
+                        "mixed integer / float dtypes give the values of the same numbers as float64")
+    # ---- glue: a scorer object reused after its input array was modified in place must not remember old values
+    if pid == "C15":
+        for f in ("mean", "quantile", "expectile"):
+            tried += 1
+            sfr = ElementaryScore(1.0, f, 0.3)
+            yb = np.array([0.0, 2.0, 1.0, 3.0])
+            zb = np.array([1.5, 0.5, 2.5, 0.0])
+            sfr.score_per_obs(yb, zb)
+            yb[:] = [3.0, 0.5, 2.0, 0.0]
+            r_reuse = np.asarray(sfr.score_per_obs(yb, zb), dtype=float)
+            r_fresh = np.asarray(ElementaryScore(1.0, f, 0.3).score_per_obs(yb.copy(), zb.copy()), dtype=float)
+            sfr.eta = 2.0
+            r_eta = np.asarray(sfr.score_per_obs(yb, zb), dtype=float)
+            r_eta_fresh = np.asarray(ElementaryScore(2.0, f, 0.3).score_per_obs(yb.copy(), zb.copy()), dtype=float)
+            if not np.array_equal(r_reuse, r_fresh) or not np.array_equal(r_eta, r_eta_fresh):
+                add(f"ElementaryScore[{f}]", dict(y=yb.tolist(), z=zb.tolist()), [r_reuse.tolist(), r_fresh.tolist(), r_eta.tolist(), r_eta_fresh.tolist()],
+                    "a reused scorer gives the same values as a fresh one (after y_obs was modified in place / eta was reassigned)")
     # ---- glue around the translated core (np.asarray / validate_2_arrays): mixed float precision and purity
     if pid in ("C04", "C05", "C08", "C14", "C15"):
         y32 = np.array([1.0000001, 2.5, -0.75, 3.0000002], dtype=np.float32)
